@@ -24,6 +24,7 @@ fn dispatch(prop: &str, ctx: &Ctx, replay: Option<&[String]>) -> bool {
     "C02" => p!(c02),
     "C03" => p!(c03),
     "C04" => p!(c04),
+    "C05" => p!(c05),
     "C06" => p!(c06),
     "C07" => p!(c07),
     "C08" => p!(c08),
